@@ -32,6 +32,7 @@ func (x *Exec) call(st *State, cc *ssa.CallCommon, in ssa.Instruction, pos token
 
 func (x *Exec) callCommon(st *State, cc *ssa.CallCommon, in ssa.Instruction, pos token.Pos, args []Val, fv Val, deferred bool) Val {
 	resT := cc.Signature().Results()
+	x.curCall = cc
 	if b, ok := cc.Value.(*ssa.Builtin); ok {
 		return x.builtinCall(st, b, cc, args, pos)
 	}
@@ -250,6 +251,7 @@ func (x *Exec) staticCall(st *State, fn *ssa.Function, binds []Val, args []Val, 
 		}
 		return x.inlineCall(st, fn, binds, args, resT, isGhost || x.ghost)
 	}
+	x.havocBoundCells(st, fn, binds)
 	if fc != nil {
 		fc.Used = true
 		return x.applyContract(st, fc, fn, binds, args, pos, resT, key)
@@ -261,9 +263,53 @@ func (x *Exec) staticCall(st *State, fn *ssa.Function, binds []Val, args []Val, 
 	return x.results(st, resT, "r_"+san(fn.Name()))
 }
 
+// havocBoundCells: a closure that is not inlined may assign the private
+// variables it captured.
+func (x *Exec) havocBoundCells(st *State, fn *ssa.Function, binds []Val) {
+	for _, b := range binds {
+		if b.P != nil && b.P.Kind == pCell && !isRegionKey(b.P.Cell) {
+			old, ok := st.cells[b.P.Cell]
+			if !ok || old.S == "" {
+				continue
+			}
+			n := x.c.freshConst("cap", b.P.BaseT)
+			x.c.assume(x.c.wfAt(b.P.BaseT, n, x.c.alloc(st)))
+			st.cells[b.P.Cell] = Val{T: b.P.BaseT, S: n}
+		}
+	}
+}
+
 // autoInline: deferred closures and trivial local closures without loops.
 func (x *Exec) autoInline(fn *ssa.Function) bool {
-	return false
+	return deferOnly(fn)
+}
+
+// deferOnly: an anonymous function whose only use is a defer statement.
+func deferOnly(fn *ssa.Function) bool {
+	par := fn.Parent()
+	if par == nil {
+		return false
+	}
+	used := false
+	for _, b := range par.Blocks {
+		for _, in := range b.Instrs {
+			mc, ok := in.(*ssa.MakeClosure)
+			if !ok || mc.Fn != ssa.Value(fn) || mc.Referrers() == nil {
+				continue
+			}
+			for _, r := range *mc.Referrers() {
+				switch r := r.(type) {
+				case *ssa.Defer:
+					used = true
+				case *ssa.DebugRef:
+				default:
+					_ = r
+					return false
+				}
+			}
+		}
+	}
+	return used
 }
 
 func (p *Program) isGhostFn(fn *ssa.Function) bool {
@@ -622,6 +668,101 @@ func init() {
 		c.note("trusted: " + extKey(fn) + " returns a non-nil error and has no other effect")
 		return res
 	}
+	// sort.Slice(x, less): permutes the elements of x; less must be a read-only function of ours
+	intrinsics["sort.Slice"] = func(x *Exec, st *State, fn *ssa.Function, args []Val, pos token.Pos, resT *types.Tuple) Val {
+		c := x.c
+		var elem types.Type
+		if mi, ok := x.curCall.Args[0].(*ssa.MakeInterface); ok {
+			if sl, ok := mi.X.Type().Underlying().(*types.Slice); ok {
+				elem = sl.Elem()
+			}
+		}
+		readOnly := false
+		if args[1].Fn != nil {
+			if lf, ok := args[1].Fn.Fn.(*ssa.Function); ok {
+				ms := x.p.modSet(c, lf)
+				readOnly = !ms.All
+				for r := range ms.Regions {
+					if r != "$alloc" {
+						readOnly = false
+					}
+				}
+			}
+		}
+		if elem == nil || !readOnly {
+			c.havocAll(st)
+			c.note("sort.Slice with an unresolved comparator havocs the whole heap")
+			return Val{T: resT}
+		}
+		// the comparator's precondition must hold for every pair of indices of x
+		if lf, ok := args[1].Fn.Fn.(*ssa.Function); ok {
+			if lfc := x.p.contracts[x.p.funcKey(lf)]; lfc != nil && len(lf.Params) == 2 {
+				ln := sLen(x.payload(st, args[0].S, x.curCall.Args[0].(*ssa.MakeInterface).X.Type()))
+				intT := types.Typ[types.Int]
+				vars := map[string]Val{}
+				var rng []string
+				for _, pr := range lf.Params {
+					n := c.freshConst("cmp_"+pr.Name(), intT)
+					vars[pr.Name()] = Val{T: intT, S: n}
+					rng = append(rng, sx("<=", "0", c.toIdx(intT, n)), sx("<", c.toIdx(intT, n), ln))
+				}
+				free := map[string]Val{}
+				for i, fvv := range lf.FreeVars {
+					if i < len(args[1].Fn.Binds) {
+						free[fvv.Name()] = args[1].Fn.Binds[i]
+					}
+				}
+				env := &Env{x: x, c: c, st: st, old: st, vars: vars, free: free, fn: lf, pos: lf.Pos(), ghostOnly: true}
+				for i, rq := range lfc.Requires {
+					goal := implies(and(rng...), x.evalClause(env, rq))
+					x.oblige(st, "call-requires", pos, goal, fmt.Sprintf("%s.requires%d", x.p.funcKey(lf), i+1), nil)
+				}
+				lfc.Used = true
+			}
+		}
+		r, _ := c.elemRegion(elem)
+		c.havocRegion(st, r)
+		c.havocRegion(st, "$alloc")
+		c.note("trusted: sort.Slice(x, less) calls less only with indices inside x and only permutes the elements of x (comparator checked read-only by the frame analysis); it does not panic when less does not")
+		return Val{T: resT}
+	}
+	intrinsics["slices.Sort"] = func(x *Exec, st *State, fn *ssa.Function, args []Val, pos token.Pos, resT *types.Tuple) Val {
+		c := x.c
+		if sl, ok := args[0].T.Underlying().(*types.Slice); ok {
+			r, _ := c.elemRegion(sl.Elem())
+			c.havocRegion(st, r)
+		}
+		c.note("trusted: slices.Sort only permutes the elements of its argument")
+		return Val{T: resT}
+	}
+	mapsKeys := func(x *Exec, st *State, fn *ssa.Function, args []Val, pos token.Pos, resT *types.Tuple) Val {
+		c := x.c
+		c.havocRegion(st, "$alloc")
+		t := resT.At(0).Type()
+		if sl, ok := t.Underlying().(*types.Slice); ok {
+			r, _ := c.elemRegion(sl.Elem())
+			c.havocRegion(st, r)
+		}
+		res := x.results(st, resT, "keys")
+		return res
+	}
+	_ = mapsKeys
+	intrinsics["golang.org/x/exp/maps.Keys"] = func(x *Exec, st *State, fn *ssa.Function, args []Val, pos token.Pos, resT *types.Tuple) Val {
+		c := x.c
+		pre := c.alloc(st)
+		c.havocRegion(st, "$alloc")
+		t := resT.At(0).Type()
+		if sl, ok := t.Underlying().(*types.Slice); ok {
+			r, _ := c.elemRegion(sl.Elem())
+			c.havocRegion(st, r)
+		}
+		res := x.results(st, resT, "keys")
+		// a freshly allocated slice (or nil when the map is empty)
+		c.assume(or(eq(sRef(res.S), "0"), sx(">", sRef(res.S), pre)))
+		c.note("trusted: maps.Keys returns a fresh slice holding the keys of the map in unspecified order")
+		return res
+	}
+	intrinsics["maps.Keys"] = intrinsics["golang.org/x/exp/maps.Keys"]
 	intrinsics["errors.New"] = pureNonNilErr
 	intrinsics["fmt.Errorf"] = pureNonNilErr
 	pureFresh := func(x *Exec, st *State, fn *ssa.Function, args []Val, pos token.Pos, resT *types.Tuple) Val {
@@ -637,7 +778,10 @@ func init() {
 		"math.IsNaN", "math.IsInf", "math.Inf", "math.NaN", "math.Trunc", "math.Mod", "math.Sqrt", "math.Max", "math.Min",
 		"time.Parse", "(time.Time).Format", "(time.Time).IsZero", "strings.EqualFold", "unicode/utf8.RuneCountInString",
 		"(*regexp.Regexp).FindStringSubmatch", "(*regexp.Regexp).MatchString", "strings.Cut", "strings.Replace", "strings.ReplaceAll",
-		"strings.LastIndex", "strings.LastIndexByte", "strings.ContainsRune", "strings.IndexRune", "strings.Map"} {
+		"strings.LastIndex", "strings.LastIndexByte", "strings.ContainsRune", "strings.IndexRune", "strings.Map",
+		"(*bytes.Buffer).WriteByte", "(*bytes.Buffer).Len", "(*bytes.Buffer).String", "(*bytes.Buffer).Write", "(*bytes.Buffer).WriteString",
+		"(*bytes.Buffer).Bytes", "(*bytes.Buffer).Reset", "(*strings.Builder).WriteByte", "(*strings.Builder).WriteString",
+		"(*strings.Builder).String", "(*strings.Builder).Len", "(*strings.Builder).WriteRune", "(*strings.Builder).Write"} {
 		intrinsics[k] = pureFresh
 	}
 }
